@@ -327,7 +327,10 @@ def _transformed(case, ctx):
     ctx.check("c19.repeatable", _equal(a0, tm.marginal_icdf(p, 0)), "transformed model (random_state set): marginal_icdf is not repeatable", entry="marginal_icdf")
     with np.errstate(all="ignore"):
         tm.empirical_cdf(c0[:2])  # fills the lazily cached (unseeded) sample
-        _ = tm.pdf(c0[:2])
+        try:
+            _ = tm.pdf(c0[:2])
+        except ValueError:
+            ctx.count("c19.transformed-pdf-rejected-a-contour-point")  # (a point with a zero coordinate maps to inf: reported)
     ctx.check("c19.history-independent", _equal(a0, tm.marginal_icdf(p, 0)) and _equal(a1, tm.marginal_icdf(p, 1)), "transformed model (random_state set): marginal_icdf changes after empirical_cdf() was evaluated on the same object", entry="marginal_icdf", before=a0, after=np.asarray(tm.marginal_icdf(p, 0), float))
     ctx.check("c19.history-independent", _equal(c0, IFORMContour(tm, 0.02, n_points=8).coordinates), "transformed model (random_state set): the IFORM contour changes after empirical_cdf() was evaluated on the same object", entry="IFORMContour")
     ctx.check("c19.history-independent", _equal(a0, twin.marginal_icdf(p, 0)) and _equal(c0, IFORMContour(twin, 0.02, n_points=8).coordinates), "transformed model (random_state set): results differ from a twin built from the same description", entry="twin")
